@@ -199,7 +199,11 @@ def _version_chunk(args):
             # positional path from the field down to the subcomponent: <field>_<j>_<k>
             try:
                 pr = []
-                for s in c["subs"][:3]:
+                sel = []
+                for s in c["subs"][:2] + c["subs"][-2:] + [x for x in c["subs"] if x["k"] in (9, 10, 11, 19, 20)]:
+                    if s not in sel:
+                        sel.append(s)      # (first, last, and around the positions where the index gets a second digit)
+                for s in sel:
                     f = Field(fname, version=v)
                     path = "%s_%d_%d" % (fname.lower(), c["j"], s["k"])
                     setattr(f, path, VAL)
